@@ -1,14 +1,14 @@
 #!/bin/bash
 # tools/harvest9.sh <ID>  - ninth batch: harvest /tmp/wt8-<ID>/seed_out/{1,2,3} as <ID>-17..19 (helper modules next to the demos
 # are copied along), run them against the property's quick check, remove the worktree
-ID=$1; WT=/tmp/wt8-$ID
+ID=$1; WT=${WTP:-/tmp/wt8}-$ID
 cd /verif
 for i in 1 2 3; do
-  n=$((16+i))
+  n=$((${BASE:-16}+i))
   # demos that import a shared helper from seed_out/: inline the helper directory on sys.path by copying it next to the demo
   for h in $WT/seed_out/*.py; do [ -f "$h" ] && cp "$h" $WT/seed_out/$i/ 2>/dev/null; done
   tools/harvest_seed.sh $ID $WT $n $i
   if [ -d seeded/$ID-$n ]; then for h in $WT/seed_out/$i/*.py; do [ "$(basename $h)" != demo.py ] && cp $h seeded/$ID-$n/; done; fi
 done
-tools/run_seeds.sh $(ls -d seeded/$ID-17 seeded/$ID-18 seeded/$ID-19 2>/dev/null)
+tools/run_seeds.sh $(for i in 1 2 3; do ls -d seeded/$ID-$((${BASE:-16}+i)) 2>/dev/null; done)
 [ -n "$KEEPWT" ] || git -C /repo worktree remove --force $WT
